@@ -184,6 +184,10 @@ class FieldData:
 
   def _set_existing_field(self, fieldname, value, set_reference = False):
     renaming_connected = False
+    if value is None and fieldname in self.positional_fieldnames:
+      # (assigning None removes a tag)
+      raise gfapy.FormatError(
+        "The positional field '{}' cannot be removed".format(fieldname))
     if self._gfa:
       if not set_reference and \
         (fieldname in self.__class__.REFERENCE_FIELDS or \
